@@ -430,74 +430,77 @@ package schema
 //@   ensures pure("(SchemaType).IsEqualSoft", t, x) == pure("(SchemaType).IsEqualSoft", x, t)
 
 // ---- GuessSchemaType (C20, C09, C17) ----------------------------------------------------------------------
+// The classification is a function of the text alone (schemaGuessOf), written with the same text predicates as the
+// JSON-side classifier json.GuessData (textIsString, textIsBoolean, textIsInteger, textIsFloat in json/verif_contracts.go).
 // The cached number, when present, is the parse of g.data.
-//@ pred guesserOK(g *typeGuesser) := g != nil && len(g.data) <= 1099511627776 && (g.number != nil ==> wfNumber(*g.number) && num_acc(numrun(g.data, len(g.data))))
+//@ pred guesserOK(g *typeGuesser) := g != nil && len(g.data) <= 1099511627776 && (g.number != nil ==> wfNumber(*g.number) && numparses(g.data, len(g.data)) && g.number.exp == normfrac(g.data, len(g.data)))
+
+//@ fun schemaGuessOf(d []byte) SchemaType := textIsString(d) ? "string" : (textIsBoolean(d) ? "boolean" : (eqlit(d, "null") ? "null" : (textIsInteger(d) ? "integer" : (textIsFloat(d) ? "float" : (eqlit(d, "{") ? "object" : (eqlit(d, "[") ? "array" : ""))))))
 
 //@ func (*typeGuesser).parseNumber
-//@   property C20 C02
+//@   property C20 C02 C17
 //@   requires guesserOK(g)
 //@   modifies g.number
 //@   ensures guesserOK(g) && g.data == old(g.data)
-//@   ensures result1 == nil ==> result0 != nil && result0 == g.number && num_acc(numrun(g.data, len(g.data)))
+//@   ensures (result1 == nil) == numparses(g.data, len(g.data))
+//@   ensures result1 == nil ==> result0 != nil && result0 == g.number
 //@   ensures result1 != nil ==> result0 == nil
 //@   no_panic
 
 //@ func (*typeGuesser).isInteger
-//@   property C20 C02
+//@   property C20 C02 C17
 //@   requires guesserOK(g)
 //@   modifies g.number
 //@   ensures guesserOK(g) && g.data == old(g.data)
-//@   ensures result ==> num_acc(numrun(g.data, len(g.data)))
+//@   ensures result == textIsInteger(g.data)
 //@   no_panic
-//@   loop#1 invariant -1 <= rangeindex && rangeindex < len(g.data)
-//@   loop#1 decreases len(g.data) - rangeindex
+//@   let d := g.data
+//@   loop#1 invariant -1 <= rangeindex && rangeindex < len(d)
+//@   loop#1 invariant dot == hasByteBefore(d, rangeindex + 1, 46)
+//@   loop#1 invariant exp == (hasByteBefore(d, rangeindex + 1, 101) || hasByteBefore(d, rangeindex + 1, 69))
+//@   loop#1 decreases len(d) - rangeindex
 
 //@ func (*typeGuesser).isFloat
-//@   property C20 C02
+//@   property C20 C02 C17
 //@   requires guesserOK(g)
 //@   modifies g.number
 //@   ensures guesserOK(g) && g.data == old(g.data)
-//@   ensures result ==> num_acc(numrun(g.data, len(g.data))) || !(forall j :: 0 <= j && j < len(g.data) ==> g.data[j] != 46)
+//@   ensures result == textIsFloat(g.data)
 //@   no_panic
-//@   loop#1 invariant -1 <= rangeindex && rangeindex < len(g.data)
-//@   loop#1 invariant dot ==> !(forall j :: 0 <= j && j <= rangeindex ==> g.data[j] != 46)
-//@   loop#1 decreases len(g.data) - rangeindex
+//@   let d := g.data
+//@   loop#1 invariant -1 <= rangeindex && rangeindex < len(d)
+//@   loop#1 invariant dot == hasByteBefore(d, rangeindex + 1, 46)
+//@   loop#1 invariant exp == (hasByteBefore(d, rangeindex + 1, 101) || hasByteBefore(d, rangeindex + 1, 69))
+//@   loop#1 decreases len(d) - rangeindex
 
 //@ func (*typeGuesser).Guess
-//@   property C20 C02 C09
+//@   property C20 C02 C09 C17
 //@   requires guesserOK(g)
 //@   modifies g.number
 //@   let d := g.data
-//@   let isStr := len(d) >= 2 && d[0] == 34 && d[len(d)-1] == 34
-//@   ensures isStr ==> result0 == "string" && result1 == nil
-//@   ensures !isStr && (eqlit(d, "true") || eqlit(d, "false")) ==> result0 == "boolean" && result1 == nil
-//@   ensures eqlit(d, "null") ==> result0 == "null" && result1 == nil
-//@   ensures eqlit(d, "{") ==> result0 == "object" && result1 == nil
-//@   ensures eqlit(d, "[") ==> result0 == "array" && result1 == nil
-//@   ensures result1 == nil ==> (result0 == "string" || result0 == "boolean" || result0 == "null" || result0 == "integer" || result0 == "float" || result0 == "object" || result0 == "array")
-//@   ensures result1 != nil ==> result0 == ""
-//@   ensures (result0 == "integer" || result0 == "float") ==> !isStr && !eqlit(d, "true") && !eqlit(d, "false") && !eqlit(d, "null")
-//@   ensures result0 == "integer" ==> num_acc(numrun(d, len(d)))
+//@   ensures result0 == schemaGuessOf(d)
+//@   ensures (result1 != nil) == (schemaGuessOf(d) == "")
 //@   no_panic
 //@   loop#1 invariant -1 <= rangeindex && rangeindex < 7 && guesserOK(g) && g.data == old(g.data)
-//@   loop#1 invariant rangeindex >= 0 ==> !isStr
-//@   loop#1 invariant rangeindex >= 1 ==> !eqlit(d, "true") && !eqlit(d, "false")
+//@   loop#1 invariant rangeindex >= 0 ==> !textIsString(d)
+//@   loop#1 invariant rangeindex >= 1 ==> !textIsBoolean(d)
 //@   loop#1 invariant rangeindex >= 2 ==> !eqlit(d, "null")
+//@   loop#1 invariant rangeindex >= 3 ==> !textIsInteger(d)
+//@   loop#1 invariant rangeindex >= 4 ==> !textIsFloat(d)
 //@   loop#1 invariant rangeindex >= 5 ==> !eqlit(d, "{")
 //@   loop#1 invariant rangeindex >= 6 ==> !eqlit(d, "[")
 //@   loop#1 decreases 7 - rangeindex
-//@   at return use unfold_numrun(d, 1); unfold_numrun(d, 0); unfold_numrun(d, 2); unfold_numrun(d, 3); unfold_numrun(d, 4)
 
 //@ func GuessSchemaType
-//@   property C20 C02 C09
+//@   property C20 C02 C09 C17
 //@   requires len(b) <= 1099511627776
-//@   let isStr := len(b) >= 2 && b[0] == 34 && b[len(b)-1] == 34
-//@   ensures isStr ==> result0 == "string" && result1 == nil
-//@   ensures !isStr && (eqlit(b, "true") || eqlit(b, "false")) ==> result0 == "boolean" && result1 == nil
-//@   ensures eqlit(b, "null") ==> result0 == "null" && result1 == nil
-//@   ensures eqlit(b, "{") ==> result0 == "object" && result1 == nil
-//@   ensures eqlit(b, "[") ==> result0 == "array" && result1 == nil
-//@   ensures result1 == nil ==> (result0 == "string" || result0 == "boolean" || result0 == "null" || result0 == "integer" || result0 == "float" || result0 == "object" || result0 == "array")
-//@   ensures result1 != nil ==> result0 == ""
-//@   ensures result0 == "integer" ==> num_acc(numrun(b, len(b)))
+//@   ensures result0 == schemaGuessOf(b)
+//@   ensures (result1 != nil) == (schemaGuessOf(b) == "")
 //@   no_panic
+
+//- the two classifiers agree: on every text that the JSON-side classifier types as a scalar other than a type
+//- reference, the schema-side guess is the name of that JSON type (and it fails exactly when that one panics or says "mixed")
+//@ lemma guessersAgree(d []byte)
+//@   property C20 C17
+//@   ensures literalTypeOf(d) != 0 && literalTypeOf(d) != 8 ==> schemaGuessOf(d) == jsonTypeName(literalTypeOf(d))
+//@   ensures literalTypeOf(d) == 0 || literalTypeOf(d) == 8 ==> schemaGuessOf(d) == "" || schemaGuessOf(d) == "object" || schemaGuessOf(d) == "array"
